@@ -150,9 +150,9 @@ class Soap12(Soap11):
         node = element.find("soap:Node", namespaces=nsmap)
         detail = element.find("soap:Detail", namespaces=nsmap)
         faultactor = ''
-        if role is not None:
+        if role is not None and role.text is not None:
             faultactor += role.text.strip()
-        if node is not None:
+        if node is not None and node.text is not None:
             faultactor += node.text.strip()
         return cls(faultcode=code, faultstring=reason,
                    faultactor=faultactor, detail=detail)
